@@ -154,7 +154,9 @@ pub fn run_shard<C: Check>(tier: Tier, seed: u64, shard: u32, nshards: u32, curr
     config.failure_persistence = None;
     config.rng_seed = RngSeed::Fixed(seed.wrapping_mul(1000).wrapping_add(shard as u64));
     config.max_shrink_iters = C::max_shrink_iters(tier);
-    config.max_shrink_time = 0;
+    // shrinking is bounded in iterations (per check) AND in wall time: a less minimal counter-example is
+    // still a counter-example, while a check that shrinks a heavy case for a quarter of an hour is unusable
+    config.max_shrink_time = std::env::var("VERIF_MAX_SHRINK_MS").ok().and_then(|s| s.parse().ok()).unwrap_or(tier.pick(45_000, 240_000));
     config.verbose = 0;
     let mut runner = TestRunner::new(config);
     let strategy = C::strategy(tier);
